@@ -5,6 +5,7 @@ return everything an oracle needs. The reference merge is recomputed from the ge
 arrays, never through phylib."""
 import csv
 import os
+import shutil
 
 import numpy as np
 
@@ -86,9 +87,22 @@ def run_merge(probes, fill=0):
             subdirs.append(sd)
         before = [dsgen.sha1_dir(sd) for sd in subdirs]
         out_dir = d / 'merged'
-        m = None
+        # the output directory already holds the arrays of an earlier merge of other probes (other
+        # shapes and dtypes): a merge replaces them
         try:
-            m = Merger(subdirs, out_dir).merge()
+            os.makedirs(str(out_dir))
+            for fn in os.listdir(str(d / 'warm_merged')):
+                # (only arrays every merge writes; it does not remove optional files it has no input for)
+                if fn in ('templates.npy', 'spike_times.npy', 'spike_clusters.npy', 'spike_templates.npy',
+                          'amplitudes.npy', 'channel_map.npy', 'channel_positions.npy'):
+                    shutil.copy(str(d / 'warm_merged' / fn), str(out_dir / fn))
+        except Exception:
+            pass
+        m = None
+        merger = None
+        try:
+            merger = Merger(subdirs, out_dir)
+            m = merger.merge()
         except Exception as e:
             import traceback
             res['exception'] = e
@@ -134,6 +148,24 @@ def run_merge(probes, fill=0):
                 res['model'] = {'error': repr(e)}
             finally:
                 m.close()
+        # the same Merger merges again: the output is the same
+        res['second_merge_differs'] = None
+        if res['exception'] is None and merger is not None:
+            try:
+                m3 = merger.merge()
+                m3.close()
+                diff = []
+                for fn, a in out.items():
+                    if isinstance(a, np.ndarray):
+                        b = np.load(os.path.join(str(out_dir), fn))
+                        if b.shape != a.shape or not np.array_equal(a, b, equal_nan=a.dtype.kind == 'f'):
+                            diff.append(fn)
+                    elif fn.endswith('.tsv'):
+                        if read_tsv(os.path.join(str(out_dir), fn)) != a:
+                            diff.append(fn)
+                res['second_merge_differs'] = diff
+            except Exception as e:
+                res['second_merge_differs'] = ['exception: ' + repr(e)[:200]]
         # a fresh load of the output directory (used by the "must load" clause)
         res['loads'] = None
         if res['exception'] is None:
